@@ -206,3 +206,124 @@ Proof.
   - rewrite (strict_answer _ _ _ _ _ _ _ H). rewrite (lowered_answer l a _ _ _ _ _ _ _ H Hc).
     split; [reflexivity|]. exists (lower l a wt'). split; [reflexivity|]. apply finish_lower; assumption.
 Qed.
+
+(* ---------------------------------------------------------------- the two prepared writers *)
+Lemma lower_lower l a l' a' w : lower l a (lower l' a' w) = lower l a w.
+Proof. reflexivity. Qed.
+Lemma lower_self w : lower (w_limit w) (w_avail w) w = w.
+Proof. destruct w; reflexivity. Qed.
+
+Lemma add_question_facts qn qt qc w u w' : Inv_n w -> add_question qn qt qc w = Ok (u, w') ->
+  Inv_n w' /\ w_avail w' = w_avail w /\ w_limit w' = w_limit w.
+Proof.
+  intros Hi E. pose proof (inv_pre _ Hi) as Hp.
+  assert (Hi' : Inv_n w').
+  { pose proof (step_good_all (mkD w []) (OAddQuestion qn qt qc) Hi) as G. cbn [step d_w] in G. rewrite E in G. exact G. }
+  split; [exact Hi'|]. unfold add_question in E. destruct (w_section w); try discriminate.
+  destruct (checked_add16 (w_qd w) 1) as [nq|]; [|discriminate].
+  match type of E with context [with_rollback ?f _] =>
+    pose proof (rollback_spec f w Hi (question_body_frame _ qn qt qc w Hp)) as R;
+    destruct (with_rollback f w) as [[[] w1]|[e w1]|] end; cbn [bind] in E; try discriminate.
+  injection E as _ Hw. subst w'. cbn. split; [exact (x_av _ _ _ R)|exact (x_lim _ _ _ R)].
+Qed.
+
+Lemma modify_fields w i f w' : w_modify w i f = Ok w' -> w_limit w' = w_limit w /\ w_avail w' = w_avail w.
+Proof.
+  unfold w_modify, w_write. destruct (nth_error _ _); [|discriminate]. destruct (buf_write _ _ _); [|discriminate].
+  intros H; inversion H; subst. split; reflexivity.
+Qed.
+
+Lemma udp_le_tcp : udp_limit_w <= tcp_limit_w.
+Proof.
+  unfold udp_limit_w, tcp_limit_w. apply Nat.compare_le_iff. rewrite <- N2Nat.inj_compare. discriminate.
+Qed.
+
+Theorem prepare_lower buf id rd qname qtype qclass edns limit wt wu :
+  prepare_w buf true id rd qname qtype qclass edns limit = Some wt ->
+  prepare_w buf false id rd qname qtype qclass edns limit = Some wu ->
+  wu = lower (w_limit wu) (w_avail wu) wt.
+Proof.
+  unfold prepare_w. intros HT HU.
+  destruct (writer_new buf tcp_limit_w) as [t0|e|] eqn:T0; try discriminate.
+  destruct (writer_new buf udp_limit_w) as [u0|e|] eqn:U0; try discriminate.
+  pose proof (writer_new_inv _ _ _ U0) as IU0.
+  assert (R0 : u0 = lower (w_limit u0) (w_avail u0) t0 /\ w_avail u0 <= w_avail t0 /\
+               w_limit t0 = w_avail t0).
+  { unfold writer_new in T0, U0.
+    set (Lt := Nat.min tcp_limit_w (length buf)) in *. set (Lu := Nat.min udp_limit_w (length buf)) in *.
+    destruct (Lt <? header_size); [discriminate|]. destruct (Lu <? header_size); [discriminate|].
+    destruct (length buf <? header_size); [discriminate|]. inversion T0; inversion U0; subst.
+    cbn [w_limit w_avail]. split; [reflexivity|]. split; [|reflexivity].
+    unfold Lu, Lt. apply Nat.min_le_compat_r. exact udp_le_tcp. }
+  destruct R0 as (R0 & O0 & Lt0).
+  (* the four header setters *)
+  destruct (set_id id t0) as [t1|e|] eqn:T1; cbn [bind] in HT; try discriminate.
+  destruct (set_qr true t1) as [t2|e|] eqn:T2; cbn [bind] in HT; try discriminate.
+  destruct (set_opcode 0 t2) as [t3|e|] eqn:T3; cbn [bind] in HT; try discriminate.
+  destruct (set_rd rd t3) as [t4|e|] eqn:T4; try discriminate.
+  destruct (set_id id u0) as [u1|e|] eqn:U1; cbn [bind] in HU; try discriminate.
+  destruct (set_qr true u1) as [u2|e|] eqn:U2; cbn [bind] in HU; try discriminate.
+  destruct (set_opcode 0 u2) as [u3|e|] eqn:U3; cbn [bind] in HU; try discriminate.
+  destruct (set_rd rd u3) as [u4|e|] eqn:U4; try discriminate.
+  set (l := w_limit u0) in *. set (a := w_avail u0) in *.
+  assert (R1 : u1 = lower l a t1).
+  { unfold set_id in *. rewrite R0, w_write_lower, T1 in U1. inversion U1. reflexivity. }
+  assert (R2 : u2 = lower l a t2).
+  { unfold set_qr, w_set_flag in *. rewrite R1, w_modify_lower, T2 in U2. inversion U2. reflexivity. }
+  assert (R3 : u3 = lower l a t3).
+  { unfold set_opcode in *. rewrite R2, w_modify_lower, T3 in U3. inversion U3. reflexivity. }
+  assert (R4 : u4 = lower l a t4).
+  { unfold set_rd, w_set_flag in *. rewrite R3, w_modify_lower, T4 in U4. inversion U4. reflexivity. }
+  assert (F4 : w_limit t4 = w_limit t0 /\ w_avail t4 = w_avail t0).
+  { unfold set_id in T1. apply w_write_inv in T1 as (b1 & _ & ->).
+    destruct (modify_fields _ _ _ _ T2) as [A2 B2]. destruct (modify_fields _ _ _ _ T3) as [A3 B3].
+    destruct (modify_fields _ _ _ _ T4) as [A4 B4]. cbn in *. split; congruence. }
+  assert (IU4 : Inv_n u4).
+  { unfold set_id in U1. pose proof (inv_w_write _ _ _ _ IU0 U1) as I1.
+    pose proof (inv_w_modify _ _ _ _ I1 U2) as I2. pose proof (inv_w_modify _ _ _ _ I2 U3) as I3.
+    exact (inv_w_modify _ _ _ _ I3 U4). }
+  (* the question *)
+  destruct (add_question qname qtype qclass t4) as [[ut t5]|e|] eqn:T5; try discriminate.
+  destruct (add_question qname qtype qclass u4) as [[uu u5]|e|] eqn:U5; try discriminate.
+  destruct (add_question_facts _ _ _ _ _ _ IU4 U5) as (IU5 & AV5 & LI5).
+  assert (R5 : u5 = lower (w_limit u5) (w_avail u5) t5).
+  { destruct (mono_add_question (w_limit t4) (w_avail t4) _ _ _ _ _ _ U5) as [_ L5].
+    assert (Hfit : w_cursor u5 <= w_avail t4).
+    { destruct IU5 as [_ _ h3 _ _]. rewrite AV5, R4 in h3. cbn in h3. destruct F4 as [_ F4]. rewrite F4. unfold a in h3. lia. }
+    specialize (L5 Hfit). rewrite R4, lower_lower, lower_self, T5 in L5. injection L5 as _ E5.
+    rewrite E5, lower_lower. symmetry. apply lower_self. }
+  destruct edns as [size|].
+  - destruct (set_edns size t5) as [[ue t6]|e|] eqn:T6; try discriminate.
+    destruct (set_edns size u5) as [[ue2 u6]|e|] eqn:U6; try discriminate.
+    assert (R6 : u6 = lower (w_limit u6) (w_avail u6) t6).
+    { unfold set_edns in T6, U6. rewrite R5 in U6.
+      change (w_edns (lower (w_limit u5) (w_avail u5) t5)) with (w_edns t5) in U6.
+      change (w_ar (lower (w_limit u5) (w_avail u5) t5)) with (w_ar t5) in U6.
+      destruct (w_edns t5); [discriminate|]. destruct (_ <? _) in T6; [discriminate|]. destruct (_ <? _) in U6; [discriminate|].
+      destruct (checked_add16 (w_ar t5) 1); [|discriminate]. injection T6 as _ <-. injection U6 as _ <-. reflexivity. }
+    injection HT as <-.
+    destruct (MsgWriter.set_limit limit u6) as [u7|e|] eqn:U7; try discriminate. injection HU as <-.
+    unfold MsgWriter.set_limit in U7. rewrite R6 in U7.
+    destruct (w_limit (lower (w_limit u6) (w_avail u6) t6) <=? limit).
+    + destruct (_ <? _) in U7; [discriminate|]. injection U7 as <-. reflexivity.
+    + destruct (_ <? _) in U7; [discriminate|]. destruct (_ <? _) in U7; [discriminate|]. destruct (_ <? _) in U7; [discriminate|].
+      injection U7 as <-. reflexivity.
+  - injection HT as <-. injection HU as <-. exact R5.
+Qed.
+
+(* Clause (iii) at the level of complete responses, for answers that end Ok: *)
+Theorem respond_udp_identical negttl buf id rd qname qtype qclass edns limit z wt wu wt' len b :
+  prepare_w buf true id rd qname qtype qclass edns limit = Some wt ->
+  prepare_w buf false id rd qname qtype qclass edns limit = Some wu ->
+  (if (qtype =? QTYPE_ANY)%N then answer_any w_strict negttl z qname wt else answer w_strict negttl z qname qtype wt) = Ok (tt, wt') ->
+  finish wt' = Ok (len, b) -> w_tsig wt' = None -> w_cursor wt' <= w_avail wt' ->
+  w_cursor wt' <= w_avail wu -> len <= w_avail wu + (if w_edns wt' then opt_record_size else 0) ->
+  respond_w negttl buf true id rd qname qtype qclass edns limit z = Some (len, b) /\
+  respond_w negttl buf false id rd qname qtype qclass edns limit z = Some (len, b).
+Proof.
+  intros HT HU Ha Hf Ht Hcav Hc Hlen. unfold respond_w. rewrite HT, HU.
+  pose proof (prepare_lower _ _ _ _ _ _ _ _ _ _ HT HU) as Hl.
+  destruct (udp_same_as_tcp negttl z qname qtype (w_limit wu) (w_avail wu) wt wt' len b Ha Hf Ht Hcav Hc Hlen)
+    as (E1 & wu' & E2 & E3).
+  rewrite E1, Hf. split; [reflexivity|]. rewrite Hl, E2, E3. reflexivity.
+Qed.
